@@ -1,30 +1,44 @@
 /-
   The mount layer's translation of POSIX byte-range lock requests into LiteFS lock types
   (litefs.go: `ParseDatabaseLockRange`, `ParseSHMLockRange`, called by the lock / unlock / query
-  handlers of fuse/database_node.go and fuse/shm_node.go).  A lock type is in the answer iff its
-  byte lies inside the requested range [start, end]; the types are tested in a fixed order.  The
-  byte of every lock type is a constant regenerated from litefs.go (`Gen.Facts.LockType*`); the
-  conditions and their order are tied by the control skeletons.
+  handlers of fuse/database_node.go and fuse/shm_node.go).
+
+  The two functions are regenerated from the source as tables (`Gen.Facts.dbLockRangeTable`,
+  `Gen.Facts.shmLockRangeTable`): one row (X, Y, Z) per statement
+  `if start <= uint64(X) && uint64(Y) <= end { a = append(a, Z) }`, with the values of the
+  lock-type constants.  `parse` is what the Go code computes from such a table.
 -/
 import LiteFSVerif.Gen.Facts
 
 namespace LiteFSVerif.LockRange
 open LiteFSVerif.Gen.Facts
 
-/-- the lock types of the database file in the order `ParseDatabaseLockRange` tests them -/
-def dbTypes : List (String × Nat) :=
-  [("pending", LockTypePending), ("reserved", LockTypeReserved), ("shared", LockTypeShared)]
+/-- the Go function: the Z of every row whose X is at or after `start` and whose Y is at or before `end` -/
+def parse (table : List (Nat × Nat × Nat)) (start end_ : Nat) : List Nat :=
+  (table.filter fun r => start ≤ r.1 && r.2.1 ≤ end_).map (·.2.2)
 
-/-- the lock types of the shared-memory file in the order `ParseSHMLockRange` tests them -/
-def shmTypes : List (String × Nat) :=
-  [("write", LockTypeWrite), ("ckpt", LockTypeCkpt), ("recover", LockTypeRecover),
-   ("read0", LockTypeRead0), ("read1", LockTypeRead1), ("read2", LockTypeRead2),
-   ("read3", LockTypeRead3), ("read4", LockTypeRead4), ("dms", LockTypeDMS)]
+def parseDatabaseLockRange (start end_ : Nat) : List Nat := parse dbLockRangeTable start end_
+def parseSHMLockRange (start end_ : Nat) : List Nat := parse shmLockRangeTable start end_
 
-def parse (types : List (String × Nat)) (start end_ : Nat) : List String :=
-  (types.filter fun t => start ≤ t.2 && t.2 ≤ end_).map (·.1)
+/-- every row tests the byte of the lock type it appends -/
+def rowsExact (table : List (Nat × Nat × Nat)) : Bool := table.all fun r => r.1 == r.2.1 && r.2.1 == r.2.2
 
-def parseDatabaseLockRange (start end_ : Nat) : List String := parse dbTypes start end_
-def parseSHMLockRange (start end_ : Nat) : List String := parse shmTypes start end_
+/-- the lock types of the database file and of the shared-memory file, in the order tested -/
+def dbTypes : List Nat := [LockTypePending, LockTypeReserved, LockTypeShared]
+def shmTypes : List Nat :=
+  [LockTypeWrite, LockTypeCkpt, LockTypeRecover, LockTypeRead0, LockTypeRead1, LockTypeRead2,
+   LockTypeRead3, LockTypeRead4, LockTypeDMS]
+
+theorem parse_exact (table : List (Nat × Nat × Nat)) (h : rowsExact table = true) (start end_ t : Nat) :
+    t ∈ parse table start end_ ↔ t ∈ table.map (·.2.2) ∧ start ≤ t ∧ t ≤ end_ := by
+  simp only [parse, List.mem_map, List.mem_filter, Bool.and_eq_true, decide_eq_true_eq]
+  simp only [rowsExact, List.all_eq_true, Bool.and_eq_true, beq_iff_eq] at h
+  constructor
+  · rintro ⟨r, ⟨hm, h1, h2⟩, rfl⟩
+    obtain ⟨e1, e2⟩ := h r hm
+    exact ⟨⟨r, hm, rfl⟩, by omega, by omega⟩
+  · rintro ⟨⟨r, hm, rfl⟩, h1, h2⟩
+    obtain ⟨e1, e2⟩ := h r hm
+    exact ⟨r, ⟨hm, by omega, by omega⟩, rfl⟩
 
 end LiteFSVerif.LockRange
